@@ -23,13 +23,13 @@ func init() {
 		Rule: "liveness restated as bounded progress: Stop must return within B=10s (an order of magnitude above what a correct implementation needs) WITHOUT any client action, and Run must then return nil. " +
 			"One evaluation = a fresh server brought into a connection state (none; 1/8/64 idle; half a frame sent; TLS listener with no / partial ClientHello; StartTLS-upgraded idle; StartTLS answered but handshake never started; busy pipelining; clients not reading " +
 			"large responses so that handlers block in Write (60KB frames that block in the write, 300-byte frames from two handlers that block in the flush, a server configured with a 10-minute write timeout, a client that keeps reading an endless response at a steady moderate pace, and an ldaps session whose client does not read - own bound 25s, crypto/tls spends 5s on the close_notify) - alone and combined ON THE SAME CONNECTION with an Unbind, a half-close, a pending StartTLS handshake or half a frame; all of them together) x optional concurrent second Stop, then Stop is called; plus Stop racing Run's start-up with no client at all (Run parked at its own log statements through the user-supplied logger, and random microsecond offsets), a connection with a history of 150 recovered handler panics, idle connections left over by a PRNG-chosen history of 4..20 connections coming and going, 33/40/100 idle connections, a silent peer accepted at the moment Stop is called on a TLS listener with read and write timeouts configured (60 runs; 1500 in thorough), and clients that keep connecting (and then sit idle) while Stop runs on a server with a 10-minute read timeout. If B expires the harness dumps goroutines and lets the clients go: a Stop goroutine parked (in any wait state) " +
-			"with a gldap connection goroutine parked in network I/O, released only when the clients close, is a violation; so is a Stop that is parked while every handler still running sits inside gldap's own ResponseWriter.Write; and so is a Stop call whose goroutine is found parked at the same place in a second dump taken 30s after every client closed its socket while no handler is running (e.g. one of two concurrent Stop calls that is never woken); anything else is inconclusive. " +
+			"with a gldap connection goroutine parked in network I/O, released only when the clients close, is a violation; so is a Stop that is parked while every handler still running sits inside gldap's own ResponseWriter.Write; and so is a Stop call whose goroutine is found parked at the same place in a second dump taken 30s after every client closed its socket while no handler is running (e.g. one of two concurrent Stop calls that is never woken); anything else is inconclusive. Stop is also called while the accept loop is failing for lack of descriptors (plain and TLS listeners; 250..1150ms into a 1.5s outage): Stop returns and Run returns nil. " +
 			"distinct_nontrivial = distinct (state, #connections, second-Stop) triples with at least one connection open at Stop time",
 		Assume: []string{"handlers that block in application code (not in gldap's Write) are outside the statement: the workload's handlers only ever block inside ResponseWriter.Write"},
 		Phases: func(tier string, seed int64) []Phase {
 			return []Phase{{Name: "stop-states", Run: c11Run, Timeout: 40 * time.Minute}}
 		},
-		MinObserved: []string{"stops", "stops_with_open_connections", "stops_with_handlers_blocked_in_write", "stops_racing_run_startup", "stops_after_connection_churn", "stops_with_clients_connecting_meanwhile", "stops_of_servers_logging_at_debug_level", "stops_while_a_client_steadily_reads_an_endless_response", "stops_right_after_a_silent_tls_peer_connected_with_timeouts_configured"},
+		MinObserved: []string{"stops_while_accept_was_failing", "stops", "stops_with_open_connections", "stops_with_handlers_blocked_in_write", "stops_racing_run_startup", "stops_after_connection_churn", "stops_with_clients_connecting_meanwhile", "stops_of_servers_logging_at_debug_level", "stops_while_a_client_steadily_reads_an_endless_response", "stops_right_after_a_silent_tls_peer_connected_with_timeouts_configured"},
 	})
 }
 
@@ -133,8 +133,61 @@ func c11Startup(c *Ctx, pki *PKI, pattern string, useTLS bool, round int, r *Ran
 	}
 }
 
+// c11StopDuringAcceptOutage: Stop is called while the accept loop is failing (the process is out of descriptors, a peer
+// is queued) - in the middle of whatever the loop does between two attempts. Stop returns, Run returns nil.
+func c11StopDuringAcceptOutage(c *Ctx, pki *PKI, i int) {
+	var stc *tls.Config
+	if i%3 == 2 {
+		stc = pki.ServerOnly
+	}
+	srv, err := startSrv(SrvCfg{TLS: stc}, nil)
+	if err != nil {
+		c.Inconclusive("server start: " + err.Error())
+		return
+	}
+	epDone := make(chan error, 1)
+	go func() {
+		_, err := emfileEpisode(srv.Addr, i, 1500*time.Millisecond)
+		epDone <- err
+	}()
+	// (the episode needs a moment to fill the descriptor table; the accept loop's pauses grow from 5ms to 1s)
+	time.Sleep(time.Duration(250+(i*137)%900) * time.Millisecond)
+	t0 := time.Now()
+	stopRet := make(chan error, 1)
+	go func() { stopRet <- srv.S.Stop() }()
+	sig := fmt.Sprintf("stop-during-accept-outage/tls=%v", stc != nil)
+	select {
+	case err := <-stopRet:
+		if err != nil {
+			c.Violate("Stop returned an error", err.Error(), map[string]any{"state": sig})
+		}
+		c.Max("max/stop_latency_ms", time.Since(t0).Milliseconds())
+		select {
+		case <-srv.runDone:
+			if srv.runErr != nil {
+				c.Violate("Run returned an error after Stop", fmt.Sprint(srv.runErr), map[string]any{"state": sig})
+			}
+		case <-time.After(c11Bound):
+			c.Violate("Run did not return after Stop returned", "", map[string]any{"state": sig})
+		}
+	case <-time.After(c11Bound + patience):
+		// (the outage itself is over after 1.5s and its clients have gone)
+		c.Violate("Stop blocks while a client holds a connection: "+sig, fmt.Sprintf("Stop called while accept was failing for lack of descriptors has not returned after %s", c11Bound+patience), map[string]any{"state": sig})
+	}
+	if err := <-epDone; err != nil {
+		c.Inconclusive("emfile episode: " + err.Error())
+		return
+	}
+	c.Count("stops", 1)
+	c.Count("stops_while_accept_was_failing", 1)
+	c.Distinct("states", sig)
+}
+
 func c11Run(c *Ctx) {
 	pki := newPKI()
+	for i := 0; i < c.N(4, 40); i++ {
+		c11StopDuringAcceptOutage(c, pki, i)
+	}
 	for rep := 0; rep < c.N(2, 20); rep++ {
 		for _, tlsOn := range []bool{false, true} {
 			for _, pat := range []string{"setting up TLS listener", "listening"} {
